@@ -264,6 +264,10 @@ def type_of(v, heap=None):
         if isinstance(o, H2D):
             et = o.etype or type_of(o.get(z3.IntVal(0), z3.IntVal(0)), heap)
             return T("arr2", et)
+        if isinstance(o, HDict) and o.ktype is not None and o.vtype is not None:
+            return T("dict", o.ktype, o.vtype, o.keys is not None)
+    if isinstance(v, VConc) and getattr(v, "gtype", None) is not None:
+        return v.gtype
     if isinstance(v, VConc):
         return T("conc", v)
     raise Unsupported("type_of(%r)" % (v,))
